@@ -20,6 +20,13 @@ RULE = (
     "state (no LP*/..FLIP placeholders, no duplicates, no hydrogen missing).  Non-trivial = a run "
     "in which optimisation bookkeeping ran on >= 1 optimisable group (HIS/ASN/GLN/SER/THR/TYR/"
     "CYS/LYS/ASH/GLH/water present and --noopt/--assign-only/--clean absent) or a repair happened."
+    ' ffout: EXHAUSTIVE naming scheme x input name x chain position (x force field at the thorough '
+    'tier): same atom count, no duplicate names.  altnames: EXHAUSTIVE residue type x position x '
+    'heavy-only/all-hydrogen input written with the alternative atom names, in frozen modes the '
+    "atom of each canonical name must sit at the input atom's coordinates.  nettable: directed "
+    'hydrogen-bond networks (e2e.network_table).  Generated chains also carry undefined extra atoms '
+    '(deletion must be reported), hidden chain ends in every mode, waters with hydrogens present or '
+    'only H2, HETATM-recorded standard residues, PDB column and record-order variants.'
 )
 ASSUMPTIONS = [
     "XML templates define atom sets (read independently); chemistry rules in vf/topo.py",
